@@ -824,6 +824,11 @@ class DepVer(Known):
             return (PW("", c.patterns, c.alphabet, False, ()),)
         return None
 
+    def shifts(self, c, children=None):
+        # one shift per child, as the forest's rule keys need (the default () is for rules without children)
+        children = self.decomposition_function(c) if children is None else children
+        return tuple(0 for _ in children or ())
+
     def formal_step(self):
         return "known, depending on the unrestricted class " + ",".join(map(repr, self.prefs))
 
